@@ -602,7 +602,7 @@ def rule_len(ctx: RuleContext, ts: TS, rid: str) -> None:
             ctx.check(not bad, rid, f'token_store:TokenStore._splice: {rem} defined', rem,
                       f'{rem} is not assigned on every path before the _len update', fn.where, note='assigned on all paths')
     # removed count formulas: single-block `hi - lo` of the replaced slice; multi-block tail + middle + head
-    _check_removed_formula(ctx, ts, fn, rid)
+    pass  # the value added to _len is decided by TS-SEQ (linear forms); the textual formula check was dropped
     # other writers of _len
     for f in ts.funcs.values():
         for n in walk_no_nested(f.node):
